@@ -452,9 +452,14 @@ class Fn:
     def promoted_term(self, txt):
         """value of a promoted constant `..::promoted[N]` of this body (its _0), when it is a simple aggregate/reference"""
         try:
-            n = int(txt.rsplit('::promoted[', 1)[1].split(']')[0])
+            owner_path, rest = txt.rsplit('::promoted[', 1)
+            n = int(rest.split(']')[0])
         except Exception:
             return None
+        owner = self
+        if owner_path != self.path and owner_path in self.facts.fns:
+            # a promoted constant of another body (code inlined from a helper)
+            return self.facts.fns[owner_path].promoted_term(txt)
         proms = self.j.get('promoted') or []
         if n >= len(proms):
             return None
@@ -592,10 +597,33 @@ TRANSPARENT = (
 )
 
 
+def _ok_payload(t):
+    """payload v when t can only be `Ok(v)` on the success path: an `Ok(v)` aggregate, or a phi of one `Ok(v)` and
+    error values (from_residual results / Err aggregates) -- the shape of a helper's result after virtual inlining"""
+    if t[0] == 'agg' and t[1].endswith('result::Result') and t[2] == 'Ok' and t[3]:
+        return t[3][0][1]
+    if t[0] == 'phi':
+        oks = []
+        for a in t[2]:
+            if a[0] == 'agg' and a[1].endswith('result::Result'):
+                if a[2] == 'Ok' and a[3]:
+                    oks.append(a[3][0][1])
+            elif a[0] == 'call' and a[1].endswith('FromResidual::from_residual'):
+                continue
+            else:
+                return None
+        if len(oks) == 1:
+            return oks[0]
+    return None
+
+
 def strip(t):
     """look through refs, derefs, ?-unwraps and value-preserving std wrappers"""
     while True:
-        if t[0] in ('ref', 'deref', 'try'):
+        if t[0] == 'try':
+            p = _ok_payload(t[1])
+            t = p if p is not None else t[1]
+        elif t[0] in ('ref', 'deref'):
             t = t[1]
         elif t[0] == 'cast' and t[1] in ('PtrToPtr', 'Transmute') :
             t = t[2]
@@ -735,7 +763,23 @@ class Facts:
 
     @classmethod
     def load(cls, path):
-        return cls(json.load(open(path)))
+        return cls.build(json.load(open(path)))
+
+    @classmethod
+    def build(cls, j):
+        """fact base with new private helpers virtually inlined into their callers (see inline.py); `.raw` is the
+        untouched fact base"""
+        import inline
+        raw = cls(j)
+        inl, rep = inline.inline_new_helpers(j)
+        if rep.get('inlined'):
+            F = cls(inl)
+            F.inlined = rep['inlined']
+        else:
+            F = raw
+            F.inlined = []
+        F.raw = raw
+        return F
 
     # ----------------------------------------------------------- selections
     def lib_fns(self):
